@@ -41,9 +41,9 @@ type c19Op struct {
 }
 
 type c19Sub struct {
-	Kind     string `json:"kind"`   // sync | raw | prefix | rawprefix
-	Target   string `json:"target"` // key or prefix (relative to the case's namespace)
-	At       int    `json:"at"`     // subscribe before ops[at] (len(ops) = after the whole history)
+	Kind     string `json:"kind"`     // sync | raw | prefix | rawprefix
+	Target   string `json:"target"`   // key or prefix (relative to the case's namespace)
+	At       int    `json:"at"`       // subscribe before ops[at] (len(ops) = after the whole history)
 	Consumer string `json:"consumer"` // fast | slow | late
 	DelayMs  int    `json:"delay_ms,omitempty"`
 }
@@ -68,7 +68,9 @@ type c19Obs struct {
 }
 
 func c19IsWrite(k string) bool { return k == "put" || k == "del" || k == "txn" || k == "delprefix" }
-func c19IsFault(k string) bool { return k == "mute" || k == "unmute" || k == "cancel" || k == "restart" }
+func c19IsFault(k string) bool {
+	return k == "mute" || k == "unmute" || k == "cancel" || k == "restart"
+}
 
 // ---- fault injection on the watch stream of the syncer's client (harness side only)
 
@@ -367,31 +369,46 @@ func (e *c19Env) run(in c19In) (obs c19Obs) {
 		return
 	}
 
-	// the syncer: the public constructor, unless watch faults are injected (then the same
-	// struct with a client whose watch stream the harness can disturb)
-	faults := false
+	// the syncer: the public constructor, unless faults are injected.  Watch faults: the same
+	// struct with a client whose watch stream the harness can disturb.  Server restart: the
+	// same struct over a cluster handle with a short request timeout (a configuration value,
+	// ClusterRequestTimeout), so that pulls really FAIL while the server is down instead of
+	// blocking until it is back.
+	faults, restarts := false, false
 	for _, op := range in.Ops {
 		if op.K == "mute" || op.K == "unmute" || op.K == "cancel" {
 			faults = true
 		}
+		if op.K == "restart" {
+			restarts = true
+		}
 	}
 	var sy Syncer
 	fault := &c19Fault{}
-	var wclient *clientv3.Client
-	if faults {
-		var err error
-		wclient, err = clientv3.New(clientv3.Config{
-			Endpoints:   e.c.opt.Cluster.AdvertiseClientURLs,
-			DialTimeout: dialTimeout,
-			DialOptions: []grpc.DialOption{grpc.WithChainStreamInterceptor(fault.interceptor())},
-			LogConfig:   nil,
-		})
+	if faults || restarts {
+		client, err := e.c.getClient()
 		if err != nil {
-			bad("watch client: %v", err)
+			bad("client: %v", err)
 			return
 		}
-		defer wclient.Close()
-		sy = &syncer{cluster: e.c, client: wclient, pullInterval: pull, done: make(chan struct{})}
+		cl := e.c
+		if restarts {
+			cl = &cluster{opt: e.c.opt, requestTimeout: 400 * time.Millisecond, client: client, done: make(chan struct{})}
+		}
+		if faults {
+			wclient, err := clientv3.New(clientv3.Config{
+				Endpoints:   e.c.opt.Cluster.AdvertiseClientURLs,
+				DialTimeout: dialTimeout,
+				DialOptions: []grpc.DialOption{grpc.WithChainStreamInterceptor(fault.interceptor())},
+			})
+			if err != nil {
+				bad("watch client: %v", err)
+				return
+			}
+			defer wclient.Close()
+			client = wclient
+		}
+		sy = &syncer{cluster: cl, client: client, pullInterval: pull, done: make(chan struct{})}
 	} else {
 		var err error
 		sy, err = e.c.Syncer(pull)
@@ -563,9 +580,19 @@ func (e *c19Env) restart(ms int) error {
 		ms = 5000
 	}
 	time.Sleep(time.Duration(ms) * time.Millisecond)
-	done, timeout, err := e.c.StartServer()
-	if err != nil {
-		return fmt.Errorf("start server: %v", err)
+	// the listen ports were free a moment ago; should some other process on this machine have
+	// grabbed one in between, keep trying for a while
+	var done, timeout chan struct{}
+	var err error
+	for try := 0; ; try++ {
+		done, timeout, err = e.c.StartServer()
+		if err == nil {
+			break
+		}
+		if try >= 120 {
+			return fmt.Errorf("start server: %v", err)
+		}
+		time.Sleep(500 * time.Millisecond)
 	}
 	select {
 	case <-done:
@@ -790,7 +817,10 @@ func TestVerifC19(t *testing.T) {
 			r := root.Fork(i)
 			// every 60th history stops and restarts the etcd server in the middle
 			restart := i%60 == 7
-			jobs = append(jobs, &job{id: fmt.Sprintf("%s-sync-%d", src, i), src: src, in: c19GenCase(r, adv, restart)})
+			// thorough tier: every 5th history comes from the adversarial generator (longer bursts,
+			// always a watch fault, late consumers)
+			hard := adv || (vfTier() == "thorough" && i%5 == 4)
+			jobs = append(jobs, &job{id: fmt.Sprintf("%s-sync-%d", src, i), src: src, in: c19GenCase(r, hard, restart)})
 		}
 	}
 	for _, j := range jobs {
